@@ -202,11 +202,7 @@ def rule_valid_kind(ctx, R, NR, BR):
             if c.adt != E or c.name not in ("invalid_argument", "duplicate_pattern", "automaton_scale", "invalid_conversion"):
                 continue
             sites += 1
-            owner = b
-            chain = [b]
-            while owner.is_closure:
-                owner = lib.bodies.get(owner.j["closure_parent"], owner)
-                chain.append(owner)
+            owner = lib.owner_of(b)
             S = Sites(lib, owner)
             role = _guard_role(lib, owner, S, b, bi)
             want = {"zero-length": "invalid_argument", "empty-set": "invalid_argument", "too-long": "invalid_argument",
